@@ -90,6 +90,16 @@ fmt.format(amount)
 description.format(amount)
 field.code.format(contains)
 "%s" % description
+"%s" % (x for x in rows)
+"%r" % (r.amt for r in rows)
+"%s and %s" % ((x for x in rows), 1)
+"%(a)s" % rows[0]
+[(x for x in rows) for y in rows]
+[[(x for x in rows)] for y in rows]
+next(((x for x in rows) for y in rows))
+((x for x in rows) if true else 1)
+(z := (x for x in rows))
+[r for r in rows][0] if false else (x for x in rows)
 "%r" % contains
 description % amount
 *rows
